@@ -66,7 +66,7 @@ def bytes_to_blocks(
     # args
     found_varnames = ToArgs(varnames, {i: i for i in range(len(args.parameters))})
     found_cellvars = ToArgs(cellvars)
-    found_constants = ToArgs(constants)
+    found_constants = ToArgs(constants, _key_fn=constant_key)
 
     # If we have a function block and a docstring, the first constant is the docstring.
     if isinstance(block_type, Function) and block_type.docstring is not None:
@@ -378,11 +378,21 @@ class ToArgs(Generic[T]):
     # found
     _index_to_order: dict[int, int] = field(default_factory=dict)
 
+    # Function to compute the key two args are merged by, when converting back
+    _key_fn: Callable[[T], Hashable] = field(default=hash)
+    # Mapping of the key of each arg to the first index it was found at
+    _key_to_index: dict[Hashable, int] = field(default_factory=dict)
+
     def found_index(self, index: int) -> tuple[T, Optional[int]]:
         if index not in self._index_to_order:
-            self._index_to_order[index] = len(self._args)
-        wrong_position = self._index_to_order[index] != index
-        return self._args[index], index if wrong_position else None
+            self._index_to_order[index] = len(self._index_to_order)
+        arg = self._args[index]
+        # The position needs to be saved if it is not in order of occurance, or if
+        # the same arg was already found at another index (i.e. two NaN constants),
+        # because they would be merged when converting back.
+        first_index = self._key_to_index.setdefault(self._key_fn(arg), index)
+        wrong_position = self._index_to_order[index] != index or first_index != index
+        return arg, index if wrong_position else None
 
     def __len__(self) -> int:
         return len(self._args)
@@ -406,7 +416,9 @@ class FromArgs(Generic[T]):
             # silently merged and NaN constants are equal to themselves
             assert self._hash_fn(self._i_to_arg[i]) == self._hash_fn(arg)
         self._i_to_arg[i] = arg
-        self._arg_to_i[self._hash_fn(arg)] = i
+        # If the same arg is at multiple positions, the ones without a position
+        # override refer to the first
+        self._arg_to_i.setdefault(self._hash_fn(arg), i)
 
     def __len__(self) -> int:
         return len(self._i_to_arg)
